@@ -1063,6 +1063,18 @@ func ruleDPStep(c *Ctx, rule string, fns []*ssa.Function) {
 				return
 			}
 			r, q, any := lettersOf(ia.Index, 0)
+			// a row of the matrix cut out first (rScores := la[rVal*let:]; rScores[qVal]): the low bound counts
+			for base, d := ia.X, 0; d < 3; d++ {
+				sl, isSl := base.(*ssa.Slice)
+				if !isSl {
+					break
+				}
+				if sl.Low != nil {
+					r2, q2, a2 := lettersOf(sl.Low, 0)
+					r, q, any = r || r2, q || q2, any || a2
+				}
+				base = sl.X
+			}
 			return r, q, any
 		}
 		// table load: load of table[idx] or table[idx][layer] with idx = p - k*c - m
